@@ -732,12 +732,24 @@ func concSwap(c *harness.Ctx) {
 		datas = append(datas, b)
 		ids = append(ids, dsu.Sum(b))
 	}
+	// in a third of the cases the members fail a fifth of their requests (with an error that is not "missing"): such a
+	// request may fail, but it has to return, and so has every Swap that was waiting behind it
+	flaky := rng.Intn(3) == 0
+	fseed := uint64(rng.Int63())
 	mk := func(k int) *dsu.MemStore {
 		ms := dsu.NewMemStore(fmt.Sprintf("s%d", k))
 		for r := range ids {
 			ms.PutRaw(ids[r], datas[r])
 		}
 		ms.Gate = gate(uint64(rng.Int63()))
+		if flaky {
+			ms.Fault = func(op string, n int64, id desync.ChunkID) error {
+				if op != "store" && mix(fseed^uint64(n)*977^uint64(k))%5 == 0 {
+					return dsu.ErrInjected{Msg: fmt.Sprintf("s%d %s#%d", k, op, n)}
+				}
+				return nil
+			}
+		}
 		return ms
 	}
 	var all []*dsu.MemStore
@@ -785,7 +797,7 @@ func concSwap(c *harness.Ctx) {
 				}
 				t1 := dsu.Tick()
 				mu.Lock()
-				if cl != "ok" {
+				if cl != "ok" && !(flaky && cl == "error" && dsu.IsFault(err)) {
 					fails = append(fails, fmt.Sprintf("request %d: %s %v", r, cl, err))
 				}
 				hist = append(hist, porcupine.Operation{ClientId: wk, Input: swapIn{false, r}, Call: t0, Return: t1})
